@@ -24,10 +24,10 @@ def labelStage (E : Env V) (c : LabelCond) (es : List (Entry V)) : List (Entry V
 /- scalar leaves in document order, each with the keys leading to it, up to the point where the decoder fails -/
 mutual
 def leavesVal (path : List Bytes) : JVal → List (List Bytes × Bytes) × Bool
-  | .obj kvs => leavesKvs path kvs
+  | .obj _ kvs => leavesKvs path kvs
   | .str s => ([(path, s)], true)
   | .raw t => ([(path, t)], true)
-  | .arr xs => ([], !hasBadList xs)
+  | .arr _ xs => ([], !hasBadList xs)
   | .bad => ([], false)
 def leavesKvs (path : List Bytes) : JKvs → List (List Bytes × Bytes) × Bool
   | .nil => ([], true)
@@ -44,23 +44,24 @@ def pathLabel (path : List Bytes) : Bytes := sanitizeLabel (path.foldl joinPrefi
 
 def jsonLabels (doc : JVal) (l : Labels) : Labels :=
   match doc with
-  | .obj kvs => (leavesKvs [] kvs).1.foldl (fun acc pv => acc.set (pathLabel pv.1) pv.2) l
+  | .obj _ kvs => (leavesKvs [] kvs).1.foldl (fun acc pv => acc.set (pathLabel pv.1) pv.2) l
   | _ => l
 
-/-! ### `| json name="path"`: the scalar found by following the path (the reading by lookup, one parameter at a
-    time in parameter order; it coincides with `jsonPathLabels` below when no two parameters share a name and the
-    document is read to the end: `Qryn.C09.jsonParams_distinct_is_lookup`) -/
+/-! ### `| json name="path"`: the value found by following the path — the content of a string, the source text of a
+    number / `true` / `false` / `null`, the JSON text of an object or an array (for a key that occurs twice the last
+    occurrence the path leads somewhere in) -/
 mutual
 def lookupPath : JVal → List PathSeg → Option Bytes
   | .str s, [] => some s
   | .raw t, [] => some t
-  | .obj kvs, .key k :: rest => lookupKvs kvs k rest
-  | .arr xs, .idx i :: rest => lookupList xs i rest
+  | .obj text _, [] => some text
+  | .arr text _, [] => some text
+  | .obj _ kvs, .key k :: rest => lookupKvs kvs k rest
+  | .arr _ xs, .idx i :: rest => lookupList xs i rest
   | _, _ => none
 def lookupKvs : JKvs → Bytes → List PathSeg → Option Bytes
   | .nil, _, _ => none
   | .cons k' v rest, k, p =>
-    -- a key that occurs twice: the last occurrence that leads to a scalar counts
     match lookupKvs rest k p with
     | some x => some x
     | none => if k' = k then lookupPath v p else none
@@ -70,49 +71,45 @@ def lookupList : JList → Nat → List PathSeg → Option Bytes
   | .cons _ rest, i + 1, p => lookupList rest i p
 end
 
-def jsonParamLabels (params : List Ahead) (doc : JVal) (l : Labels) : Labels :=
-  params.foldl (fun acc a => match lookupPath doc a.2 with | some v => acc.set a.1 v | none => acc) l
-
-/-! ### `| json n₁="path₁", n₂="path₂", …` in general: any number of parameters, names that repeat, names of
-    stream labels. Every scalar of the document has an address (the object keys and array indexes leading to it);
-    going through the scalars in document order, a scalar whose address is the path of a parameter gives that
-    parameter's label its value (an existing label of that name is overwritten; for several parameters with that
-    path, in parameter order). So a label named by several parameters, or addressed through a key that occurs
-    twice, ends with the value that comes last in the document. On a document the decoder cannot read to the end,
-    only the scalars before the failure point count. -/
+/-! ### `| json n₁="path₁", n₂="path₂", …` in general. Every value of the document — scalar, object or array — has an
+    address (the object keys and array indexes leading to it); going through the values in document order (a composite
+    before its members), a value whose address is the path of a parameter gives that parameter's label its text. So a
+    label named by several parameters, or addressed through a key that occurs twice, ends with the value that comes last
+    in the document. **Every** named label is set: a parameter no value was found for — its path leads nowhere, or the
+    line is not one JSON document — sets its label to the empty string (what ClickHouse's
+    `mapUpdate(labels, mapFromArrays(names, [JSONExtract…]))` does). -/
 mutual
-def pleavesVal : JVal → List (List PathSeg × Bytes) × Bool
-  | .obj kvs => pleavesKvs kvs
-  | .arr xs => pleavesArr 0 xs
-  | .str s => ([([], s)], true)
-  | .raw t => ([([], t)], true)
-  | .bad => ([], false)
-def pleavesKvs : JKvs → List (List PathSeg × Bytes) × Bool
-  | .nil => ([], true)
-  | .cons k v rest =>
-    let r := pleavesVal v
-    let here := r.1.map (fun pv => (PathSeg.key k :: pv.1, pv.2))
-    if r.2 then
-      let r' := pleavesKvs rest
-      (here ++ r'.1, r'.2)
-    else (here, false)
-def pleavesArr (i : Nat) : JList → List (List PathSeg × Bytes) × Bool
-  | .nil => ([], true)
-  | .cons v rest =>
-    let r := pleavesVal v
-    let here := r.1.map (fun pv => (PathSeg.idx i :: pv.1, pv.2))
-    if r.2 then
-      let r' := pleavesArr (i + 1) rest
-      (here ++ r'.1, r'.2)
-    else (here, false)
+def pleavesVal : JVal → List (List PathSeg × Bytes)
+  | .obj text kvs => ([], text) :: pleavesKvs kvs
+  | .arr text xs => ([], text) :: pleavesArr 0 xs
+  | .str s => [([], s)]
+  | .raw t => [([], t)]
+  | .bad => []
+def pleavesKvs : JKvs → List (List PathSeg × Bytes)
+  | .nil => []
+  | .cons k v rest => (pleavesVal v).map (fun pv => (PathSeg.key k :: pv.1, pv.2)) ++ pleavesKvs rest
+def pleavesArr (i : Nat) : JList → List (List PathSeg × Bytes)
+  | .nil => []
+  | .cons v rest => (pleavesVal v).map (fun pv => (PathSeg.idx i :: pv.1, pv.2)) ++ pleavesArr (i + 1) rest
 end
 
-/-- one scalar `pv = (address, value)`: every parameter whose path is that address gets the value -/
+/-- one value `pv = (address, text)`: every parameter whose path is that address gets the text -/
 def setMatching (params : List Ahead) (acc : Labels) (pv : List PathSeg × Bytes) : Labels :=
   params.foldl (fun acc a => if a.2 = pv.1 then acc.set a.1 pv.2 else acc) acc
 
-def jsonPathLabels (params : List Ahead) (doc : JVal) (l : Labels) : Labels :=
-  (pleavesVal doc).1.foldl (setMatching params) l
+/-- label ↦ text for the parameters the document has a value for (a document read to the end) -/
+def jsonPathFound (params : List Ahead) (doc : JVal) : Labels :=
+  (pleavesVal doc).foldl (setMatching params) []
+
+/-- `readable`: the line is one JSON document (`Env.jsonValid`) and the decoder read it to the end -/
+def jsonPathLabels (readable : Bool) (params : List Ahead) (doc : JVal) (l : Labels) : Labels :=
+  let found := if readable then jsonPathFound params doc else []
+  params.foldl (fun acc a => acc.set a.1 (found.get a.1)) l
+
+/-- the reading by lookup, parameter by parameter (equal to the general one when no two parameters share a name:
+    `Qryn.C09.jsonParams_distinct_is_lookup`): each label is the text its path leads to, "" when it leads nowhere -/
+def jsonParamLabels (readable : Bool) (params : List Ahead) (doc : JVal) (l : Labels) : Labels :=
+  params.foldl (fun acc a => acc.set a.1 (if readable then (lookupPath doc a.2).getD [] else [])) l
 
 /-! ### `| logfmt` -/
 def logfmtLabels (pairs : List (Bytes × Bytes)) (l : Labels) : Labels :=
@@ -135,7 +132,7 @@ def logfmtParamLabels (params : List Ahead) (pairs : List (Bytes × Bytes)) (l :
 def parserLabels (E : Env V) (k : ParserKind) (msg : Bytes) (l : Labels) : Labels :=
   match k with
   | .json => jsonLabels (E.jsonDecode msg) l
-  | .jsonParams ps => jsonPathLabels ps (E.jsonDecode msg) l
+  | .jsonParams ps => jsonPathLabels (E.jsonValid msg && !hasBad (E.jsonDecode msg)) ps (E.jsonDecode msg) l
   | .logfmt => logfmtLabels (E.logfmtDecode msg) l
   | .logfmtParams ps => logfmtParamLabels ps (E.logfmtDecode msg) l
 
@@ -268,7 +265,7 @@ def evalPlan (E : Env V) (c : Read.Ctx) (p : Plan V) (es : List (Entry V)) : Lis
     let g := Grid.of c.fromNs c.toNs dur
     let a := match k with
       | .range fn => if rangeCounts fn then aggregate (·.labels) g (rangeValue E.num dur fn) s else []
-      | .unwrap fn => if unwrapCounts fn then aggregate (·.labels) g (unwrapValue E.num dur fn) (optByWithout E p.aggBy s) else []
+      | .unwrap fn => if unwrapCounts fn then aggregate (·.labels) g (unwrapValue E.num dur (dirFn c.orderAsc fn)) (optByWithout E p.aggBy s) else []
     let a := optCompare E.num p.aggCmp a
     match p.vec with
     | none => a
